@@ -9,7 +9,7 @@ from . import histcheck
 
 LEVEL = "proof"
 PROFILES = [('REORDER', 3), ('UNDO', 1)]
-ORACLES = ['c09', 'c02']
+ORACLES = ['c09', 'content', 'c02']
 
 
 def run(ctx):
